@@ -4,6 +4,7 @@
 import HSModel.Proofs.StepLemmas
 import HSModel.Props.C04
 import HSModel.Stream
+import HSModel.Proofs.RefineAll
 namespace HS.C01
 open Abs
 variable (cfg : Config) (o : Oracle)
@@ -133,6 +134,53 @@ theorem chunks_bounds {α : Type} (n : Nat) (bs : List α) (hn : 0 < n) :
 theorem stream_restored (s : StreamState) (len : Nat) (hs : s.closed = false) :
     afterUse true s len = s ∧ (afterUse false s len).closed = true := by
   cases s; simp_all [afterUse]
+
+/-! ### the same, for the concrete program text of the calls
+
+`Sim o st a`: the concrete store `st` (files with text contents, keyed by hashes)
+holds the abstract state `a` and its indexes agree (HSModel/Proofs/Refine.lean);
+every state reached from the empty store by public calls satisfies it
+(`C05.concrete_refines_spec_history`). -/
+
+theorem specHist_state (cs : List Call) (a : Abs) : (specHist cfg o cs a).2 = C04.runHistory cfg o a cs := by
+  induction cs generalizing a with
+  | nil => rfl
+  | cons c r ih => simp only [specHist, C04.runHistory]; exact ih _
+
+/-- **concrete round trip**: from any consistent store, if the concrete
+    `store_object(p, t, …)` returns normally, then after *any* concrete history
+    of public calls that contains no `delete_object(p)`, the concrete
+    `retrieve_object(p)` returns exactly the content `t` -/
+theorem concrete_roundtrip (st : Store) (log : List Eff) (a : Abs) (hs : Sim o st a) (ho : GoodOracle o)
+    (p : Str) (t : Tok) (add cks ca : SArg) (sz : IArg) (v : Val) (hist : List Call)
+    (hp : checkStringOk p = true)
+    (hfree : st.objs.get (o.dig cfg.alg t) = none ∨ st.objs.get (o.dig cfg.alg t) = some t)
+    (hstore : ((storeObject cfg o (.str p) (.ok t) add cks ca sz).run (calm st log)).1 = .ok v)
+    (hh : ∀ call ∈ hist, ¬ C04.IsDeleteOf p call) (hcs : ∀ c ∈ hist, CidArgPlain c) :
+    let w1 := ((storeObject cfg o (.str p) (.ok t) add cks ca sz).run (calm st log)).2
+    let w2 := (runHist cfg o hist w1).2
+    ((retrieveObject cfg o (.str p)).run w2).1 = .ok (.content t) := by
+  intro w1 w2
+  obtain ⟨w1', hrun1, hlk1, hnf1, hs1⟩ :=
+    refines_step cfg o (.storeObject (.str p) (.ok t) add cks ca sz) st log a hs ho trivial
+  have hrun1' : (storeObject cfg o (.str p) (.ok t) add cks ca sz).run (calm st log) =
+      ((step cfg o a (.storeObject (.str p) (.ok t) add cks ca sz)).1, w1') := hrun1
+  have hw1 : w1 = w1' := by show (Prog.run _ _).2 = w1'; rw [hrun1']
+  have hspec : (step cfg o a (.storeObject (.str p) (.ok t) add cks ca sz)).1 = .ok v := by
+    rw [hrun1'] at hstore; exact hstore
+  have hfree' : a.objs.get (o.dig cfg.alg t) = none ∨ a.objs.get (o.dig cfg.alg t) = some t := by
+    rw [hs.rel.objs]; exact hfree
+  have hholds := store_then_holds cfg o a p t add cks ca sz v hfree' hspec
+  obtain ⟨_, hs2, hlk2, hnf2⟩ := refines_history_from cfg o hist w1' _ hlk1 hnf1 hs1 ho hcs
+  rw [specHist_state] at hs2
+  have hkeep := C04.history_keeps cfg o _ hist p _ t hh hholds
+  have hne : o.dig cfg.alg t ≠ [] := ((checkStringOk_iff _).1 (ho.okDigests _ _)).1
+  have hret := retrieve_holds cfg o _ p _ t hp hne hkeep
+  obtain ⟨w3, hrun3, _, _, _⟩ := refines_step_world cfg o (.retrieveObject (.str p)) (runHist cfg o hist w1').2 _
+    hlk2 hnf2 hs2 ho trivial
+  have hrun3' : (retrieveObject cfg o (.str p)).run (runHist cfg o hist w1').2 = _ := hrun3
+  show ((retrieveObject cfg o (.str p)).run (runHist cfg o hist w1).2).1 = _
+  rw [hw1, hrun3', hret]
 
 example : chunks 4 [1, 2, 3, 4, 5, 6, 7, 8, 9] = [[1, 2, 3, 4], [5, 6, 7, 8], [9]] := by
   simp [chunks]
